@@ -13,6 +13,8 @@ package main
 import (
 	"go/token"
 	"go/types"
+	"math"
+	"os"
 )
 
 var tInt64 = types.Typ[types.Int64]
@@ -110,4 +112,73 @@ func init() {
 		return asInt64(a[0]) / 1000000
 	})
 	reg(vfPkg+".SymbolicClock", func(fr *frame, a []value) value { fr.ex.symClock = true; return nil })
+}
+
+func init() {
+	reg("reflect.Indirect", func(fr *frame, a []value) value {
+		if rV2T(a[0]).t != nil {
+			if _, ok := rV2T(a[0]).t.Underlying().(*types.Pointer); ok {
+				return ext۰reflect۰Value۰Elem(fr, a)
+			}
+		}
+		return a[0]
+	})
+}
+
+// math: the float kernels code may start to use (ite over fp comparisons; NaN
+// handling follows the comparisons: a NaN operand makes both comparisons false).
+var symFloatEnabled = os.Getenv("GOSYM_SYMFLOAT") == "1"
+
+func init() {
+	tF64 := types.Typ[types.Float64]
+	pick := func(fr *frame, x, y value, op token.Token) value {
+		ex := fr.ex
+		if !isSym(x) && !isSym(y) {
+			a, b := x.(float64), y.(float64)
+			if op == token.GTR {
+				return math.Max(a, b)
+			}
+			return math.Min(a, b)
+		}
+		if !symFloatEnabled {
+			ex.unsupported("math.Max/Min of a symbolic float (64-bit floating-point queries exceed the solver caps; GOSYM_SYMFLOAT=1 enables them)")
+		}
+		c := ex.binop(op, tF64, x, y)
+		if ex.truth(c) {
+			return x
+		}
+		return y
+	}
+	reg("math.Max", func(fr *frame, a []value) value { return pick(fr, a[0], a[1], token.GTR) })
+	reg("math.Min", func(fr *frame, a []value) value { return pick(fr, a[0], a[1], token.LSS) })
+	reg("math.Abs", func(fr *frame, a []value) value {
+		if !isSym(a[0]) {
+			return math.Abs(a[0].(float64))
+		}
+		if fr.ex.truth(fr.ex.binop(token.LSS, tF64, a[0], float64(0))) {
+			return fr.ex.binop(token.SUB, tF64, float64(0), a[0])
+		}
+		return a[0]
+	})
+	for name, f := range map[string]func(float64) float64{"math.Floor": math.Floor, "math.Ceil": math.Ceil, "math.Trunc": math.Trunc, "math.Round": math.Round, "math.Sqrt": math.Sqrt} {
+		f, name := f, name
+		reg(name, func(fr *frame, a []value) value {
+			if isSym(a[0]) {
+				fr.ex.unsupported("%s of a symbolic float", name)
+			}
+			return f(a[0].(float64))
+		})
+	}
+	reg("math.IsNaN", func(fr *frame, a []value) value {
+		if !isSym(a[0]) {
+			return math.IsNaN(a[0].(float64))
+		}
+		return fr.ex.notv(fr.ex.binop(token.EQL, tF64, a[0], a[0]))
+	})
+	reg("math.IsInf", func(fr *frame, a []value) value {
+		if isSym(a[0]) {
+			fr.ex.unsupported("math.IsInf of a symbolic float")
+		}
+		return math.IsInf(a[0].(float64), int(asInt64(a[1])))
+	})
 }
